@@ -8,7 +8,9 @@ from .c11 import DOMAIN
 
 def run(chk):
     chk.assume("A: wake-up timestamps are finite reals; float('inf') is a constant above all of them")
-    chk.assume("NOT DECIDED (liveness, DESIGN 5): 'always woken again', 'reaches SUCCEEDED/FAILED after finitely many invocations', 'no invocation runs forever', and the real-time clause about a branch still running when the last sibling parked")
+    chk.assume("NOT DECIDED (liveness, DESIGN 5): 'always woken again', 'reaches SUCCEEDED/FAILED after finitely many invocations', 'no invocation runs forever', and the real-time clause about a branch still running when the last sibling parked. "
+               "Decided safety causes of these clauses: retries are bounded (attempt count), every blocked synchronous caller is woken on failure, no lost wake-up in create_checkpoint (C06), the completion event is set whenever the batch is decided or every branch is parked, "
+               "and the loops of the batch collection terminate (variants); loops that end on an external event (stop flag, arrival of an update, the backend's last history page) are not shown to terminate")
     for kind in ("wait", "invoke", "callback_result", "step", "wfc"):
         ex = explore(kind)
         handler_preamble(chk, ex, FUNCS[kind])
@@ -35,3 +37,5 @@ def run(chk):
     #    replay tracker terminates (C17.state.under_completed_context.loop.variant); the other loops end on an external event (stop flag, arrival,
     #    the backend's last page) and stay undecided
     batcher.check_collect(chk, "C07")
+    #  - "reaches SUCCEEDED/FAILED": a wait_for_condition makes progress across invocations only if each poll gets the state of the previous one
+    hobl.c13_wfc(chk, explore("wfc"), prefix="C07")
